@@ -2,7 +2,7 @@
 import json
 
 from rules import tbl_parse_float as T
-from rules.core import (guarded, callee_name, last_seg, path_conditions, op_expr, show, strip_casts, expr_calls,
+from rules.core import (guarded, guarded_soft, callee_name, last_seg, path_conditions, op_expr, show, strip_casts, expr_calls,
                         tbl_eval, NotATable, TableIndexOutOfRange, find_fn_suffix, AnchorMissing, strip_generics)
 
 INFO = {
@@ -224,15 +224,15 @@ def run(col, configs, tier):
     from rules import extra as X
     for n, facts in configs.items():
         col.set_config(n)
-        guarded(col, X.rule_error_accounting, facts)
+        guarded_soft(col, X.rule_error_accounting, facts)
         # back-ends that only exist under a feature: their own structural rules (compact Grisu)
-        guarded(col, X.rule_grisu_boundaries, facts)
-        guarded(col, X.rule_grisu_weed, facts)
-        guarded(col, X.rule_int_pow_exact, facts)
+        guarded_soft(col, X.rule_grisu_boundaries, facts)
+        guarded_soft(col, X.rule_grisu_weed, facts)
+        guarded_soft(col, X.rule_int_pow_exact, facts)
         from rules import dispatch
         guarded(col, dispatch.rule_dispatch_table, facts)
         from rules import syntax
         guarded(col, syntax.rule_getters, facts)
         # the `format` build adds a required-digits test to the integer parsers' Ok exits: it must be on the
         # digit count itself, or `format` changes what STANDARD input is accepted
-        guarded(col, X.rule_ok_requires_digits, facts)
+        guarded_soft(col, X.rule_ok_requires_digits, facts)
